@@ -18,6 +18,11 @@ every generated history (`hyp_ok`) as a cross-check of the model. -/
 namespace SnaxVerif.C20
 open SnaxVerif.Phs
 
+section Generic
+/-! Theorems that hold for BOTH variants of the tree (see `Variant`): with fixes/DC20a (`fixed = true`, what the
+committed harness expects) and before it. -/
+variable [Variant]
+
 /-- The property at full strength, for a merge history `k0 :: ks` of any length. Every kernel is a kernel as
 `convert_generic_body_to_phs` produces it (`kwf`: structural IR invariants, concrete, switches and operands
 refer to choose ops of the kernel) and has as many data ports as the first one. If the history merges into
@@ -156,20 +161,6 @@ theorem combine_keeps_partial (A A' K : PE) (sw : List Nat) (h : decode A K = .o
   unfold decode
   simp [hc, hargs, extends_clause.args, hpre', hsol]
 
-/-- without the relation between the two graphs nothing is kept: an unrelated element does not decode the
-kernel that `A` decodes (`extends_clause` cannot be dropped) -/
-theorem combine_keeps_needs_extends_fails :
-    ¬ (∀ (A A' K : PE) (sw : List Nat), decode A K = .ok sw →
-        (∃ pre', localChoices A' K A'.switches 0 = .ok pre') → ∃ sw', decode A' K = .ok sw') := by
-  intro h
-  let i32 : Ty := ⟨"IntegerType", "i32"⟩
-  let K : PE := ⟨[i32, i32], [⟨"x0", ["arith.addi"], [.arg 0, .arg 1], 0, i32⟩], .node 0, [.choose 0]⟩
-  let A' : PE := ⟨[i32, i32], [⟨"x0", ["arith.addi"], [.arg 1, .arg 0], 0, i32⟩], .node 0, [.choose 0]⟩
-  have := h K A' K [] (by decide) ⟨[.skip], by decide⟩
-  obtain ⟨sw', hsw'⟩ := this
-  have hd : decode A' K = .error .mappingNotFound := by decide
-  rw [hd] at hsw'; cases hsw'
-
 /-- Prop form of the attribute clause: among the operations of all kernels of the history, the class (operation
 name) determines the operation — no two kernels use one operation with different attributes -/
 theorem attr_clause_iff (gs : List PE) : classFun (allOps gs) = true ↔ ClassFun (allOps gs) := classFun_iff _
@@ -259,41 +250,14 @@ theorem C20_history_attrfree (k0 : PE) (ks : List PE) (A : PE) (h0 : k0.kwf = tr
   apply C20_history_partial k0 ks A h0 hks hargs _ hm
   rw [classFun_iff]
   intro o o' ho ho' hc
-  cases o; cases o'
-  simp only at hc
   have h1 := hfree _ ho
   have h2 := hfree _ ho'
-  simp only at h1 h2
-  simp [hc, h1, h2]
-
-section AttrWitness
-def i1 : Ty := ⟨"IntegerType", "i1"⟩
-def i32' : Ty := ⟨"IntegerType", "i32"⟩
-/-- kernel `a < b` -/
-def exLt : PE := ⟨[i32', i32'], [⟨"c0", [⟨"arith.cmpi", "slt"⟩], [.arg 0, .arg 1], 0, i1⟩], .node 0, [.choose 0]⟩
-/-- kernel `a > b`: same operation class, other predicate -/
-def exGt : PE := ⟨[i32', i32'], [⟨"c0", [⟨"arith.cmpi", "sgt"⟩], [.arg 0, .arg 1], 0, i1⟩], .node 0, [.choose 0]⟩
-def semCmp (op : OpCode) (vs : List Int) : Int :=
-  if op.attr = "slt" then (if vs.getD 0 0 < vs.getD 1 0 then 1 else 0)
-  else (if vs.getD 0 0 > vs.getD 1 0 then 1 else 0)
-
-/-- **finding DC20a in the model**: `C20_statement` is false of the code as it is. Merging `a > b` into the
-element for `a < b` changes nothing (`insert_operations` compares operation names only), decoding `a > b`
-succeeds with no switch value (`decode` compares classes only), and the element computes `a < b`. The
-attribute clause of `C20_history_partial` cannot be dropped. -/
-theorem C20_statement_attr_fails : ¬ C20_statement := by
-  intro h
-  obtain ⟨sw, hsw, _, hiff⟩ := h exLt [exGt] exLt (by decide) (by decide) (by decide) (by decide) exGt (by simp)
-  have hd : decode exLt exGt = .ok [] := by decide
-  rw [hd] at hsw; injection hsw with hsw; subst hsw
-  have hk : Computes semCmp exGt (fun _ => 0) [1, 2] exGt.yld 0 := eval_sound exGt _ _ _ 0 (by decide)
-  have ha : Computes semCmp exLt (exLt.assign []) [1, 2] exLt.yld 1 := eval_sound exLt _ _ _ 1 (by decide)
-  have := computes_functional exLt _ semCmp [1, 2] _ _ _ ((hiff Int semCmp [1, 2] 0).mp hk) ha
-  exact absurd this (by decide)
-
-/-- the clause is what fails for the witness -/
-example : classFun (allOps [exLt, exGt]) = false := by decide
-end AttrWitness
+  by_cases hf : Variant.fixed = true
+  · exact sameOp_fixed hf hc
+  · simp only [sameOp, hf, Bool.false_eq_true, if_false, beq_iff_eq] at hc
+    cases o; cases o'
+    simp only at hc h1 h2
+    simp [hc, h1, h2]
 
 /-- full statement: `convert_generic_body_to_phs` returns a kernel in the sense of `C20_history` -/
 def encode_kwf_statement : Prop := ∀ (b : KBody) (K : PE), encode b = .ok K → K.kwf = true
@@ -375,6 +339,85 @@ theorem from_operations_computes (ops : List (OpCode × List Ty × Ty)) (A : PE)
     {V : Type} (sem : OpCode → List V → V) (inp : List V) (hlen : inp.length = A.argTys.length) :
     Computes sem A (fun _ => i) inp A.yld (sem name inp) :=
   peFromOperations_computes h hi sem inp hlen
+
+end Generic
+
+/-! ### the tree with fixes/DC20a: operations are identified by name AND attributes -/
+
+section Fixed
+/-! the global default instance `Variant.fixedTree` (`fixed = true`) is the one in scope here -/
+
+/-! the DC20a witness kernels (used on both trees) -/
+def i1 : Ty := ⟨"IntegerType", "i1"⟩
+def i32' : Ty := ⟨"IntegerType", "i32"⟩
+/-- kernel `a < b` -/
+def exLt : PE := ⟨[i32', i32'], [⟨"c0", [⟨"arith.cmpi", "slt"⟩], [.arg 0, .arg 1], 0, i1⟩], .node 0, [.choose 0]⟩
+/-- kernel `a > b`: same operation class, other predicate -/
+def exGt : PE := ⟨[i32', i32'], [⟨"c0", [⟨"arith.cmpi", "sgt"⟩], [.arg 0, .arg 1], 0, i1⟩], .node 0, [.choose 0]⟩
+def semCmp (op : OpCode) (vs : List Int) : Int :=
+  if op.attr = "slt" then (if vs.getD 0 0 < vs.getD 1 0 then 1 else 0)
+  else (if vs.getD 0 0 > vs.getD 1 0 then 1 else 0)
+
+
+/-- on the fixed tree `attr_clause` holds for every history -/
+theorem attr_clause_fixed (gs : List PE) : classFun (allOps gs) = true :=
+  (classFun_iff _).mpr (classFun_of_fixed rfl _)
+
+/-- **C20 for merge histories of any length** (full, fixed tree): `C20_statement` holds. -/
+theorem C20_history : C20_statement :=
+  fun k0 ks A h0 hks hargs hm => C20_history_partial k0 ks A h0 hks hargs (attr_clause_fixed _) hm
+
+/-- every reachable graph satisfies the invariant, `wf`, keeps the data ports, and every merged kernel is routable
+and covered (full, fixed tree) -/
+theorem reachable_inv (k0 : PE) (ks : List PE) (A : PE) (h0 : k0.kwf = true) (hks : ∀ k, k ∈ ks → k.kwf = true)
+    (hm : mergeAll k0 ks = .ok A) :
+    Inv A ∧ A.wf = true ∧ A.argTys = k0.argTys ∧ ∀ k, k ∈ k0 :: ks → Routable A k ∧ covers A k = true :=
+  reachable_inv_partial k0 ks A h0 hks (attr_clause_fixed _) hm
+
+/-- a merge covers the merged graph (full, fixed tree) -/
+theorem combine_establishes_covers (A G A' : PE) (hinv : Inv A) (hG : ∀ g, g ∈ G.nodes → g.ops ≠ [])
+    (h : combine A G = .ok A') : covers A' G = true := by
+  have hS : ClassFun (allOps [A, G]) := classFun_of_fixed rfl _
+  refine (combine_establishes_covers_partial A G A' hinv hG h (allOps [A, G]) hS ?_ ?_).1
+  · exact fun j n hn o ho => mem_allOps.mpr ⟨A, by simp, n, List.mem_of_getElem? hn, ho⟩
+  · exact fun g hg o ho => mem_allOps.mpr ⟨G, by simp, g, hg, ho⟩
+
+/-- **C20 down to the kernel bodies** (full, fixed tree) -/
+theorem C20_history_bodies (k0 : PE) (ks : List PE) (A : PE) (h0 : k0.kwf = true)
+    (hks : ∀ k, k ∈ ks → k.kwf = true) (hargs : ∀ k, k ∈ ks → k.argTys.length = k0.argTys.length)
+    (hm : mergeAll k0 ks = .ok A) (b : KBody) (k : PE) (hk : k ∈ k0 :: ks) (hb : encode b = .ok k) :
+    ∃ sw, decode A k = .ok sw ∧ sw.length = A.trueSwitches ∧
+      ∀ (V : Type) (sem : OpCode → List V → V) (inp : List V), inp.length = b.argTys.length → ∀ v : V,
+        b.eval sem inp = some v ↔ Computes sem A (A.assign sw) (b.usedInputs inp) A.yld v :=
+  C20_history_bodies_partial k0 ks A h0 hks hargs (attr_clause_fixed _) hm b k hk hb
+
+/-- **C20 for kernel bodies, no structural hypothesis and no attribute clause** (full, fixed tree): encode any list
+of `linalg.generic` bodies, merge the kernels in order; if nothing raises and the kernels have equally many data
+ports, every kernel decodes, the number of values is `trueSwitches`, and the merged element under the decoded
+switches computes exactly the function of the corresponding body — operations with attributes included. -/
+theorem C20_for_bodies (b0 : KBody) (bs : List KBody) (k0 : PE) (ks : List PE) (A : PE)
+    (h0 : encode b0 = .ok k0) (hs : mapExcept encode bs = .ok ks)
+    (hargs : ∀ k, k ∈ ks → k.argTys.length = k0.argTys.length) (hm : mergeAll k0 ks = .ok A)
+    (i : Nat) (b : KBody) (hb : (b0 :: bs)[i]? = some b) :
+    ∃ k sw, (k0 :: ks)[i]? = some k ∧ encode b = .ok k ∧ decode A k = .ok sw ∧ sw.length = A.trueSwitches ∧
+      ∀ (V : Type) (sem : OpCode → List V → V) (inp : List V), inp.length = b.argTys.length → ∀ v : V,
+        b.eval sem inp = some v ↔ Computes sem A (A.assign sw) (b.usedInputs inp) A.yld v :=
+  C20_for_bodies_partial b0 bs k0 ks A h0 hs hargs (attr_clause_fixed _) hm i b hb
+
+/-- without the relation between the two graphs nothing is kept: an unrelated element does not decode the
+kernel that `A` decodes (`extends_clause` cannot be dropped) -/
+theorem combine_keeps_needs_extends_fails :
+    ¬ (∀ (A A' K : PE) (sw : List Nat), decode A K = .ok sw →
+        (∃ pre', localChoices A' K A'.switches 0 = .ok pre') → ∃ sw', decode A' K = .ok sw') := by
+  intro h
+  let i32 : Ty := ⟨"IntegerType", "i32"⟩
+  let K : PE := ⟨[i32, i32], [⟨"x0", ["arith.addi"], [.arg 0, .arg 1], 0, i32⟩], .node 0, [.choose 0]⟩
+  let A' : PE := ⟨[i32, i32], [⟨"x0", ["arith.addi"], [.arg 1, .arg 0], 0, i32⟩], .node 0, [.choose 0]⟩
+  have := h K A' K [] (by decide) ⟨[.skip], by decide⟩
+  obtain ⟨sw', hsw'⟩ := this
+  have hd : decode A' K = .error .mappingNotFound := by decide
+  rw [hd] at hsw'; cases hsw'
+
 
 /-! ### non-vacuity: a concrete two-kernel history -/
 
@@ -468,5 +511,36 @@ theorem D28_collapsed_region_fails :
   have := computes_functional exA _ semCollapsed [3, 5] _ _ _ (h 15 hk) ha
   exact absurd this (by decide)
 end Examples
+
+/-- the DC20a witness on the FIXED tree: the second kernel's operation is offered and selected, the element
+computes `a > b` -/
+example : (do
+    let A ← mergeAll exLt [exGt]
+    let sw ← decode A exGt
+    pure (A.trueSwitches == 1 && sw == [1]) : Except Err Bool) = .ok true := by decide
+
+end Fixed
+
+/-! ### the tree BEFORE fixes/DC20a: operations are identified by name only -/
+
+section Unfixed
+local instance unfixedVariant : Variant := ⟨false⟩
+/-- **finding DC20a in the model**: `C20_statement` is false of the code as it is. Merging `a > b` into the
+element for `a < b` changes nothing (`insert_operations` compares operation names only), decoding `a > b`
+succeeds with no switch value (`decode` compares classes only), and the element computes `a < b`. The
+attribute clause of `C20_history_partial` cannot be dropped. -/
+theorem C20_statement_attr_fails : ¬ C20_statement := by
+  intro h
+  obtain ⟨sw, hsw, _, hiff⟩ := h exLt [exGt] exLt (by decide) (by decide) (by decide) (by decide) exGt (by simp)
+  have hd : decode exLt exGt = .ok [] := by decide
+  rw [hd] at hsw; injection hsw with hsw; subst hsw
+  have hk : Computes semCmp exGt (fun _ => 0) [1, 2] exGt.yld 0 := eval_sound exGt _ _ _ 0 (by decide)
+  have ha : Computes semCmp exLt (exLt.assign []) [1, 2] exLt.yld 1 := eval_sound exLt _ _ _ 1 (by decide)
+  have := computes_functional exLt _ semCmp [1, 2] _ _ _ ((hiff Int semCmp [1, 2] 0).mp hk) ha
+  exact absurd this (by decide)
+
+/-- the clause is what fails for the witness -/
+example : classFun (allOps [exLt, exGt]) = false := by decide
+end Unfixed
 
 end SnaxVerif.C20
